@@ -1,4 +1,5 @@
 import VOPyVerif.Proofs.StepsAuer
+import VOPyVerif.Props.C09
 /-!
 # C02 — a design is eliminated only on, and always on, a confidence-region certificate
 
@@ -243,20 +244,8 @@ theorem vogp_eliminated_semantic {α : Type} (R : Nat → α → Prop) (dom : α
         i ∉ (vogpRound isDom isCov pessDom S P).2) ↔
       (i ∈ S ∧ ¬ pess i ∧ ∃ j, pess j ∧ j ≠ i ∧ ∀ z, R i z → ∀ z', R j z' → dom z' z) := by
   intro pess
-  have hp : ∀ k, k ∈ pessimisticSet pessDom S P ↔ pess k := by
-    intro k
-    rw [mem_pessimisticSet]
-    simp only [pess]
-    constructor
-    · rintro ⟨h1, h2⟩
-      refine ⟨h1, fun j hj hne hd => ?_⟩
-      have := h2 j hj hne
-      rw [(hC11 j k).mpr hd] at this; exact absurd this (by simp)
-    · rintro ⟨h1, h2⟩
-      refine ⟨h1, fun j hj hne => ?_⟩
-      by_cases hd : pessDom j k = true
-      · exact absurd ((hC11 j k).mp hd) (h2 j hj hne)
-      · simpa using hd
+  have hp : ∀ k, k ∈ pessimisticSet pessDom S P ↔ pess k :=
+    fun k => mem_pessimisticSet_bridge pdom hC11
   rw [vogp_eliminated_iff isDom isCov pessDom hS hSP]
   simp only [hp, hC09]
 
@@ -345,6 +334,71 @@ theorem vogp_identical (isDom pessDom : Rel) {S P : List Nat} (hS : S.Nodup) {i 
 2 is not pessimistic either (dominated by 1) but has no certificate → stays -/
 example : vogpDiscard (fun i j => i == 0 && j == 1) (fun j i => j == 1 && (i == 0 || i == 2))
     [0, 1, 2] [] = [1, 2] := by decide
+
+/-! ## End to end with the geometry of C09 (no oracle left for the elimination certificate) -/
+
+/-- **Rectangular regions (PaVeBaGP type "IH", PaVeBaPartialGP "hyperrectangle"), real points.**
+Let design `k` display the box `[L k, U k]` (`L k ≤ U k`), let `W` be any cone matrix and `s` the
+objective-space slack (0 for this family), and let `discarding()` decide with the model of the
+rectangular `is_dominated` (C09: `Rect.isDominated`).  Then a design leaves the candidate set without
+entering `P` **exactly when** some other active design `j` satisfies
+`∀ z ∈ box_i, ∀ z' ∈ box_j, ∀ n, w_n·(z' + s − z) ≥ 0` over the reals. -/
+theorem paveba_rect_eliminated_real {m N : ℕ} (W : Fin N → Fin m → ℚ) (L U : Nat → Fin m → ℚ)
+    (s : Fin m → ℚ) (hLU : ∀ k i, L k i ≤ U k i) (isCov : Rel) {S P Us : List Nat} (hS : S.Nodup)
+    (hSP : ∀ x ∈ S, x ∉ P) (i : Nat) :
+    let isDom : Rel := fun a b => Rect.isDominated (toMat W) (toVec (L a)) (toVec (U a))
+      (toVec (L b)) (toVec (U b)) (toVec s)
+    (i ∈ S ∧ i ∉ (pavebaRound isDom isCov S P Us).1 ∧ i ∉ (pavebaRound isDom isCov S P Us).2.1) ↔
+      (i ∈ S ∧ ∃ j, (j ∈ S ∨ j ∈ Us) ∧ j ≠ i ∧ Rect.Dominated W (L i) (U i) (L j) (U j) s) := by
+  intro isDom
+  rw [paveba_eliminated_iff isDom isCov hS hSP]
+  have h : ∀ a b, isDom a b = true ↔ Rect.Dominated W (L a) (U a) (L b) (U b) s :=
+    fun a b => VOPy.C09.rect_isDominated_iff W _ _ _ _ s (hLU a) (hLU b)
+  simp only [h]
+
+/-- **Ellipsoidal regions (PaVeBa, PaVeBaGP type "DE", PaVeBaPartialGP "hyperellipsoid"), real
+points.**  Design `k` displays `{z | (z − c_k)ᵀ Σ_k⁻¹ (z − c_k) ≤ a_k², 0 ≤ a_k}` with `Σ_k` positive
+definite; `s` is the per-facet slack (0 for this family).  With the model of the ellipsoidal
+`is_dominated` (C09: `Ellipsoid.isDominated`, closed form decided exactly) a design is eliminated
+exactly when some other active design's ellipsoid dominates every point of its ellipsoid. -/
+theorem paveba_ell_eliminated_real {m N : ℕ} (W : Fin N → Fin m → ℚ) (c : Nat → Fin m → ℚ)
+    (Sg : Nat → Fin m → Fin m → ℚ) (a : Nat → ℚ) (s : Fin N → ℚ)
+    (hpd : ∀ k, (Matrix.of fun i j => (Sg k i j : ℝ)).PosDef) (isCov : Rel) {S P Us : List Nat}
+    (hS : S.Nodup) (hSP : ∀ x ∈ S, x ∉ P) (i : Nat) :
+    let isDom : Rel := fun p q => Ellipsoid.isDominated (toMat W) (toVec (c p)) (toMat (Sg p)) (a p)
+      (toVec (c q)) (toMat (Sg q)) (a q) (toVec s)
+    (i ∈ S ∧ i ∉ (pavebaRound isDom isCov S P Us).1 ∧ i ∉ (pavebaRound isDom isCov S P Us).2.1) ↔
+      (i ∈ S ∧ ∃ j, (j ∈ S ∨ j ∈ Us) ∧ j ≠ i ∧
+        Ellipsoid.DominatedQ W (c i) (Matrix.of fun x y => (Sg i x y : ℝ)) (a i)
+          (c j) (Matrix.of fun x y => (Sg j x y : ℝ)) (a j) s) := by
+  intro isDom
+  rw [paveba_eliminated_iff isDom isCov hS hSP]
+  have h : ∀ p q, isDom p q = true ↔
+      Ellipsoid.DominatedQ W (c p) (Matrix.of fun x y => (Sg p x y : ℝ)) (a p)
+        (c q) (Matrix.of fun x y => (Sg q x y : ℝ)) (a q) s :=
+    fun p q => VOPy.C09.ell_isDominated_iff_posDef W _ _ _ _ _ _ s (hpd p) (hpd q)
+  simp only [h]
+
+/-- **Rectangular regions, VOGP / VOGP_AD / ε-PAL, real points.**  As above with the ε-slack `s`
+(`ε·u*`, or `ε` in every objective) and the witness restricted to the pessimistic Pareto set of the
+active designs (`pdom` decided by `pessDom`, C11). -/
+theorem vogp_rect_eliminated_real {m N : ℕ} (W : Fin N → Fin m → ℚ) (L U : Nat → Fin m → ℚ)
+    (s : Fin m → ℚ) (hLU : ∀ k i, L k i ≤ U k i) (pdom : Nat → Nat → Prop) (isCov pessDom : Rel)
+    (hC11 : ∀ j i, pessDom j i = true ↔ pdom j i)
+    {S P : List Nat} (hS : S.Nodup) (hSP : ∀ x ∈ S, x ∉ P) (i : Nat) :
+    let isDom : Rel := fun a b => Rect.isDominated (toMat W) (toVec (L a)) (toVec (U a))
+      (toVec (L b)) (toVec (U b)) (toVec s)
+    let pess := fun k => (k ∈ S ∨ k ∈ P) ∧ ∀ j, (j ∈ S ∨ j ∈ P) → j ≠ k → ¬ pdom j k
+    (i ∈ S ∧ i ∉ (vogpRound isDom isCov pessDom S P).1 ∧
+        i ∉ (vogpRound isDom isCov pessDom S P).2) ↔
+      (i ∈ S ∧ ¬ pess i ∧ ∃ j, pess j ∧ j ≠ i ∧ Rect.Dominated W (L i) (U i) (L j) (U j) s) := by
+  intro isDom pess
+  have hp : ∀ k, k ∈ pessimisticSet pessDom S P ↔ pess k :=
+    fun k => mem_pessimisticSet_bridge pdom hC11
+  have hd : ∀ a b, isDom a b = true ↔ Rect.Dominated W (L a) (U a) (L b) (U b) s :=
+    fun a b => VOPy.C09.rect_isDominated_iff W _ _ _ _ s (hLU a) (hLU b)
+  rw [vogp_eliminated_iff isDom isCov pessDom hS hSP]
+  simp only [hp, hd]
 
 /-! ## Auer -/
 
